@@ -1,7 +1,7 @@
 (* C19 — Division conserves molecules and volume; lineage records are consistent (splitters). *)
 From Coq Require Import ZArith Reals List Bool Arith.
-From BS Require Import Base.Arith Model.Queue Model.Term Model.Propensity Model.Interface Model.Rules Model.Random Model.SSA Model.Splitters Model.Lineage
-                       Proofs.SplitProofs Proofs.SSAProofs Proofs.LineageProofs Proofs.LineageIdle.
+From BS Require Import Base.Arith Model.Queue Model.Term Model.Propensity Model.Interface Model.Rules Model.Random Model.SSA Model.Splitters Model.Lineage Model.Worklist
+                       Proofs.SplitProofs Proofs.SSAProofs Proofs.LineageProofs Proofs.LineageIdle Proofs.WorklistProofs.
 Import ListNotations.
 Local Open Scope R_scope.
 
@@ -81,9 +81,17 @@ Theorem C19_idle_cell_never_fires :
   ((ls_time st' = ls_next_q st /\ ls_next_q st' = ls_next_q st + dt) \/ ls_time st' = final).
 Proof. exact lssa_idle_iteration. Qed.
 
-(* Not mechanised (C19_partial): that a Bernoulli sum has the Binomial(n,p) law; the lineage worklist (queue of cells,
-   schnitz links, truncated grids of daughters), rule / event noise (normal draws) -- decided by the harness on simulated
-   lineages. *)
+(* The lineage worklist (coq/Model/Worklist.v: SimulateCellLineage with its queue of cell states and schnitzes, daughters
+   simulated on the truncated grid from a partition of the mother's last state; any arithmetic, stream, model, fuel, any number
+   of initial cells): in the recorded lineage every cell that names a parent is one of the two distinct daughters that parent
+   lists and was recorded after it, and the two daughters a cell lists both name it as their parent. *)
+Theorem C19_lineage_links_mutual :
+  forall F (A : Arith F) eps9 eps7 eps12 cfuel fuel (l : lin F) sps ts cells u pos w,
+  simulate_lineage A eps9 eps7 eps12 cfuel fuel l sps ts cells u pos = Done w ->
+  parent_ok (w_lineage w) /\ daughters_ok (w_lineage w).
+Proof. exact @lineage_links_mutual. Qed.
+
+(* Not mechanised (C19_partial): that a Bernoulli sum has the Binomial(n,p) law; rule / event noise (normal draws), custom partition functions -- decided by the harness on simulated lineages. *)
 
 Print Assumptions C19_general_splitter.
 Print Assumptions C19_lineage_splitter.
@@ -93,3 +101,4 @@ Print Assumptions C19_cell_volumes_positive.
 Print Assumptions C19_cell_rows_were_simulated.
 Print Assumptions C19_cell_rows_are_paths.
 Print Assumptions C19_idle_cell_never_fires.
+Print Assumptions C19_lineage_links_mutual.
